@@ -140,10 +140,16 @@ def _job(args):
             finally:
                 spec_.mapper._combine_reservations = True
 
+        # "skipping memories judged never to overflow" also acts when the pmappings are generated
+        # (make_pmappings.get_memories_to_track): for the exact run they are regenerated with every memory tracked
+        # (can_combine_multiple_runs=True is the API switch for that)
+        spec2 = Spec.from_yaml(pa, pw)
+        spec2.mapper.metrics = M
+        pm_exact = ffm.make_pmappings(spec2, print_progress=False, can_combine_multiple_runs=True)
         orig_multi = jp.multi_strategy_join
         jp.multi_strategy_join = direct
         try:
-            exact = jp.clean_compress_and_join_pmappings(pmappings=copy.deepcopy(pm), metrics=M | Metrics.RESOURCE_USAGE,
+            exact = jp.clean_compress_and_join_pmappings(pmappings=pm_exact, metrics=M | Metrics.RESOURCE_USAGE,
                                                          for_model=False, require_all_einsums=True, print_progress=False)
         finally:
             jp.multi_strategy_join = orig_multi
@@ -189,7 +195,13 @@ def run(ck: Check):
     jobs, meta = [], []
     d = os.path.join(ck.work, "runs")
     n2, n3 = (3, 1) if not thorough else (10, 4)
-    specs = [c28.two_einsum_yaml(rng) for _ in range(n2)] + [three_einsum_yaml(rng) for _ in range(n3)]
+    from checks import c06
+    specs = [c28.two_einsum_yaml(rng) for _ in range(n2 - 1)]
+    # heterogeneous chains (different rank bounds per Einsum, small GLB): the "never overflows" judgements differ per Einsum
+    specs += [c06.chain_spec(rng, 2, glb_choices=(96, 128, 256), bound_choices=(2, 4, 8))[:2]]
+    specs += [c06.chain_spec(rng, 3, glb_choices=(128, 192, 256), bound_choices=(2, 2, 4, 8))[:2] for _ in range(n3)]
+    if thorough:
+        specs += [three_einsum_yaml(rng) for _ in range(2)]
     msets = [("ENERGY",), ("ENERGY", "LATENCY"), ("ENERGY_DELAY_PRODUCT",), ("ENERGY", "LATENCY", "RESOURCE_USAGE")]
     for si, (a, w) in enumerate(specs):
         for ms_ in (msets if thorough else msets[: 2 + (si % 2)] + msets[3:]):
